@@ -234,6 +234,9 @@ type rsession struct {
 	stopped bool
 	class   string
 	lastOut *outv // D's result of the last step
+	ref     []string // per step: the common answer of D and S (normalised), "?" where they disagree (then it ends)
+	refQ    int
+	refDone bool
 	propID  string // the property a difference between F and the references is reported under
 	noStop  bool   // nil mode: a step the references disagree on does not end the history
 	softRef bool   // nil elements: only S can hold the same value; differences are counted, not reported
